@@ -115,6 +115,17 @@ def hdr(v='1.39', caller='admin', body=False, accept=True):
     elif caller == 'service':
         h['x-auth-token'] = 'nova:service-project'
         h['x-roles'] = 'service'
+    elif caller == 'noroles_svchdr':
+        # the roles of a service token accompany the request; they are not the caller's
+        h['x-auth-token'] = 'user1:proj1'
+        h['x-roles'] = ''
+        h['x-service-roles'] = 'service,admin'
+        h['x-service-token'] = 'nova'
+    elif caller == 'reader_svchdr':
+        h['x-auth-token'] = 'user1:proj1'
+        h['x-roles'] = 'reader'
+        h['x-service-roles'] = 'service'
+        h['x-service-token'] = 'nova'
     return h
 
 
@@ -427,7 +438,7 @@ def feature_lines(app):
 # ---------------------------------------------------------------------------
 # policy
 
-CALLERS = ['none', 'noroles', 'reader_own', 'reader_other', 'member', 'admin', 'service']
+CALLERS = ['none', 'noroles', 'reader_own', 'reader_other', 'member', 'admin', 'service', 'noroles_svchdr', 'reader_svchdr']
 
 
 def _policy_body(route, method):
